@@ -25,7 +25,7 @@ struct vk_shared *S;
 struct vk_cfg vk_cfg;
 char **vk_environ;
 int vk_side;
-int vk_api_seq;
+__thread int vk_api_seq;
 int vk_faults_armed;
 int vk_nchildren;
 struct vk_child vk_children[VK_MAX_CHILDREN];
@@ -215,7 +215,7 @@ void vk_advance(int ms)
 
 static struct vk_event dummy_event;
 
-int vk_calls_in_api;
+__thread int vk_calls_in_api;
 static void hang(const char *where) __attribute__((noreturn));
 
 static struct vk_event *ev_new(int call, long a0, long a1, long a2)
@@ -240,8 +240,11 @@ static struct vk_event *ev_new(int call, long a0, long a1, long a2)
   return e;
 }
 
+static long *thr_progress_ptr;
+
 static void ev_done(struct vk_event *e, long ret, int err)
 {
+  if (thr_progress_ptr && e->side == 0 && e->call != C_MALLOC && e->call != C_CALLOC && e->call != C_REALLOC && e->call != C_FREE && e->call != C_STRDUP && e->call != C_CLOCK) (*thr_progress_ptr)++;
   e->ret = ret;
   e->err = ret < 0 ? err : 0;
   if (e->call == C_MALLOC || e->call == C_CALLOC || e->call == C_REALLOC || e->call == C_FREE || e->call == C_STRDUP) return;
@@ -796,7 +799,122 @@ static int enabled_children(struct vk_child **out)
   return n;
 }
 
-/* scheduling point before a call whose effect the child can observe or that observes the child */
+/* ---------------------------------------------------------------- cooperative threads */
+#include <pthread.h>
+#include <semaphore.h>
+
+int vk_threads_on;
+struct vk_thread {
+  pthread_t th;
+  sem_t go;
+  int used, done, blocked, joining;
+  long blocked_progress;
+  void *(*fn)(void *);
+  void *arg;
+};
+static struct vk_thread thr[VK_MAX_THREADS];
+static int nthr = 1, cur_thr;
+static long thr_progress;
+__attribute__((constructor)) static void thr_init(void) { thr_progress_ptr = &thr_progress; }
+static __thread int my_thr;
+
+int vk_thread_self(void) { return my_thr; }
+
+static int thr_eligible(int j)
+{
+  if (j == cur_thr || j >= nthr || !thr[j].used || thr[j].done) return 0;
+  if (thr[j].blocked && thr[j].blocked_progress == thr_progress) return 0;
+  if (thr[j].joining >= 0 && !thr[thr[j].joining].done) return 0;
+  return 1;
+}
+
+static int eligible_threads(int *out)
+{
+  int n = 0;
+  if (!vk_threads_on) return 0;
+  for (int j = 0; j < nthr; j++)
+    if (thr_eligible(j)) out[n++] = j;
+  return n;
+}
+
+static void thr_switch(int j)
+{
+  int me = cur_thr;
+  cur_thr = j;
+  vk_log("  -- switch thread %d -> %d", me, j);
+  sem_post(&thr[j].go);
+  sem_wait(&thr[me].go);
+}
+
+static void *thr_trampoline(void *a)
+{
+  int idx = (int) (intptr_t) a;
+  my_thr = idx;
+  sem_wait(&thr[idx].go);
+  thr[idx].fn(thr[idx].arg);
+  /* finished: hand the processor to someone who can use it */
+  thr[idx].done = 1;
+  thr_progress++;
+  int el[VK_MAX_THREADS];
+  int n = eligible_threads(el);
+  if (n == 0) {
+    /* everybody else is blocked or joining: let the first thread that is waiting for anything re-check */
+    for (int j = 0; j < nthr; j++)
+      if (j != idx && thr[j].used && !thr[j].done) { el[n++] = j; break; }
+  }
+  if (n) {
+    int c = n > 1 ? vk_choose(K_BLOCK, n, 0, "thr-exit") : 0;
+    cur_thr = el[c];
+    vk_log("  -- thread %d finished, thread %d runs", idx, el[c]);
+    sem_post(&thr[el[c]].go);
+  }
+  return NULL;
+}
+
+int vk_thread_create(void *(*fn)(void *), void *arg)
+{
+  if (!thr[0].used) {
+    thr[0].used = 1;
+    thr[0].joining = -1;
+    sem_init(&thr[0].go, 0, 0);
+  }
+  if (nthr >= VK_MAX_THREADS) infra("too many threads");
+  int idx = nthr++;
+  memset(&thr[idx], 0, sizeof thr[idx]);
+  thr[idx].used = 1;
+  thr[idx].joining = -1;
+  thr[idx].fn = fn;
+  thr[idx].arg = arg;
+  sem_init(&thr[idx].go, 0, 0);
+  vk_threads_on = 1;
+  if (pthread_create(&thr[idx].th, NULL, thr_trampoline, (void *) (intptr_t) idx)) infra("pthread_create failed");
+  return idx;
+}
+
+void vk_thread_join(int idx)
+{
+  int me = my_thr;
+  while (!thr[idx].done) {
+    thr[me].joining = idx;
+    int el[VK_MAX_THREADS];
+    int n = eligible_threads(el);
+    struct vk_child *en[VK_MAX_CHILDREN];
+    int nc = enabled_children(en);
+    if (n + nc == 0) {
+      /* threads that blocked earlier may be able to go on now */
+      thr_progress++;
+      n = eligible_threads(el);
+      if (!n) hang("join");
+    }
+    int c = n + nc > 1 ? vk_choose(K_BLOCK, n + nc, 0, "join") : 0;
+    if (c < n) thr_switch(el[c]);
+    else { vk_child_step(en[c - n]); thr_progress++; }
+  }
+  thr[me].joining = -1;
+  pthread_join(thr[idx].th, NULL);
+}
+
+/* scheduling point before a call whose effect the child (or another thread) can observe or that observes them */
 int vk_sched_point(const char *label)
 {
   if (vk_side != 0 || !vk_cfg.sched_on || vk_cfg.passthru) return 0;
@@ -804,10 +922,13 @@ int vk_sched_point(const char *label)
   while (budget_left(K_SCHED, vk_cfg.sched_bound)) {
     struct vk_child *en[VK_MAX_CHILDREN];
     int n = enabled_children(en);
-    if (!n) break;
-    int c = vk_choose(K_SCHED, 1 + n, 1, label);
+    int el[VK_MAX_THREADS];
+    int nt = eligible_threads(el);
+    if (!n && !nt) break;
+    int c = vk_choose(K_SCHED, 1 + n + nt, 1, label);
     if (!c) break;
-    vk_child_step(en[c - 1]);
+    if (c <= n) { vk_child_step(en[c - 1]); thr_progress++; }
+    else thr_switch(el[c - 1 - n]); /* a preemption: this thread could have continued */
     steps++;
   }
   return steps;
@@ -844,8 +965,39 @@ static int blocked(struct vk_event *e, const char *where, int timeout_ms)
       return -2;
     }
   }
+  int elt[VK_MAX_THREADS];
+  int nt = eligible_threads(elt);
+  if (nt) {
+    /* this thread cannot go on: letting another one run is not a preemption. The alternatives are the other threads
+     * first, then (below) the child's steps; with threads the elapsed-time menu is not combined (the harnesses that use
+     * threads do not use timeouts). */
+    int total = nt + n + (timeout_ms >= 0 ? 1 : 0);
+    int c2 = total > 1 ? vk_choose(K_BLOCK, total, 0, where) : 0;
+    if (c2 < nt) {
+      thr[my_thr].blocked = 1;
+      thr[my_thr].blocked_progress = thr_progress;
+      thr_switch(elt[c2]);
+      thr[my_thr].blocked = 0;
+      e->woke_child = 0;
+      return 0;
+    }
+    c2 -= nt;
+    if (c2 < n) { e->woke_child = en[c2]->idx + 1; vk_child_step(en[c2]); thr_progress++; return 0; }
+    S->clock_ms += timeout_ms;
+    e->blocked_ms += timeout_ms;
+    return -1;
+  }
   int nalt = n * nm + (timeout_ms >= 0 ? 1 : 0);
-  if (nalt == 0) hang(where);
+  if (nalt == 0) {
+    if (vk_threads_on) {
+      /* nobody is eligible right now: maybe a thread that blocked earlier can go on after what happened since */
+      int any = 0;
+      for (int j = 0; j < nthr; j++)
+        if (j != cur_thr && thr[j].used && !thr[j].done && thr[j].blocked && thr[j].blocked_progress != thr_progress) any = 1;
+      (void) any;
+    }
+    hang(where);
+  }
   int c = vk_choose(K_BLOCK, nalt, 0, where);
   if (timeout_ms >= 0) {
     if (c == 0) {
@@ -1000,6 +1152,7 @@ void vk_free(void *p)
 int vk_pipe(int fds[2])
 {
   if (SIDE_PARENT && is_dry_resource_call("pipe()")) { errno = EMFILE; return -1; }
+  if (vk_threads_on) vk_sched_point("pipe");
   struct vk_event *e = ev_new(C_PIPE, 0, 0, 0);
   int f = fault(C_PIPE);
   if (f) { e->injected = f; errno = f; ev_done(e, -1, f); return -1; }
@@ -1180,6 +1333,7 @@ int vk_fcntl(int fd, int cmd, ...)
   long arg = va_arg(ap, long);
   va_end(ap);
   int has_arg = !(cmd == F_GETFD || cmd == F_GETFL);
+  if (vk_threads_on) vk_sched_point("fcntl");
   struct vk_event *e = ev_new(C_FCNTL, fd, cmd, has_arg ? arg : 0);
   int f = fault(C_FCNTL);
   if (f) { e->injected = f; errno = f; ev_done(e, -1, f); return -1; }
@@ -1337,6 +1491,7 @@ pid_t vk_fork(void)
 {
   if (vk_side != 0) return fork();
   if (is_dry_resource_call("fork()")) { errno = EAGAIN; return -1; }
+  if (vk_threads_on) vk_sched_point("fork");
   struct vk_event *e = ev_new(C_FORK, 0, 0, 0);
   int f = fault(C_FORK);
   if (f) { e->injected = f; errno = f; ev_done(e, -1, f); return -1; }
